@@ -72,6 +72,9 @@ def run_case(params: dict) -> dict:
     # cycle-request, armed before the transfers even exist: the call then lands right behind the very cycle that
     # creates the first negotiation task for the victim
     early_arm = op_sync == 'cycle-request' and rng.random() < 0.6
+    if offer_at is not None and rng.random() < 0.5:
+        # the call is made right behind the arrival of the peer's offer (k loop steps later)
+        op_sync, early_arm = 'offer', False
     tm = TransferMonitor()
     viol: list = []
     obs = {'ops_judged': 0, 'frames_decoded': 0, 'orphan_scans': 0, 'field_freeze_checks': 0, 'ops_refused': 0,
@@ -225,6 +228,15 @@ def run_case(params: dict) -> dict:
                 sync['event'].set()
         mgr.request_management_cycle = request_management_cycle
 
+        def on_message(event):
+            m = event.message
+            v = sync['victim']() if sync['armed'] and op_sync == 'offer' else None
+            if v is not None and isinstance(m, PeerTransferRequest.Request) and m.filename == v.remote_path:
+                obs['calls_placed_right_behind_the_offer'] = obs.get('calls_placed_right_behind_the_offer', 0) + 1
+                sync['event'].set()
+        from aioslsk.events import MessageReceivedEvent
+        me.client.events.register(MessageReceivedEvent, on_message, priority=0)
+
         # -- workload ---------------------------------------------------------------------------
         await settle(0.3)
         transfers = []
@@ -289,6 +301,8 @@ def run_case(params: dict) -> dict:
                 await upl._serve(None, victim.remote_path)
             w.spawn('bob', offer(), name='vf-unsolicited-offer')
         wait = t0 + t_op - w.loop.time()
+        if op_sync == 'offer':
+            wait = min(wait, offer_at - 0.001)       # armed before the offer is made
         if wait > 0 and not early_fired:
             await asyncio.sleep(wait)
         if early_fired:
